@@ -133,3 +133,15 @@ def array_setter_stores_alias(repo):
     t = alias_term(v, val, at=st)
     roots = al.roots(v.ctx, t)
     return any(r.startswith("param:val") for r in roots)
+
+
+def no_dtype_narrowing(chk, repo, pid, rule, quals, why):
+    """results whose numbers are computed (not merely moved) must not be cast back to the operand's dtype:
+    the constructor's dtype argument has to be absent or None at every returned Field construction"""
+    for q in quals:
+        v = FV(repo, q, param_types={"other": FIELD, "vector": FIELD})
+        for r, a in returned_news(v):
+            dt = a.get("dtype")
+            ok = dt is None or is_const(v.ctx, dt, None)
+            chk.ob(f"{q}::result-dtype-not-inherited", ok, rule,
+                   f"the result is constructed with dtype={v.show(dt)}: {why}", v.f, r)
